@@ -12,7 +12,9 @@
    [3, k, ...]                      -> [msg_type, msg]   session message factories
    [4, order, msg]                  -> [outcome, order'] process_execution_report
    [5, state, key]                  -> [registered keys']
-   [7, k, msg]                      -> [[tag text, value text] ...]   the message rendered with print_q k *)
+   [7, k, msg]                      -> [[tag text, value text] ...]   the message rendered with print_q k
+   [8, state, kind]                 -> state'   a bookkeeping method (0 reset_messages, 1 set_next_num, 2 query,
+                                       3 factory, 4 cancel reject, 5 acceptor traffic) *)
 From Coq Require Import ZArith NArith List Bool.
 From AF Require Import Base.Sx Py.Str Fix.OrderStatus Fix.Tester Fix.TesterPrint.
 Import ListNotations.
@@ -134,6 +136,16 @@ Definition run (req : sx) : sx :=
       match get_state st, get_str key with
       | Some st, Some key => sx_of_list sx_of_str (t_reg (register st key))
       | _, _ => err_sx 1
+      end
+  | SL [SI 8; st; SI kind] =>
+      match get_state st with
+      | Some st =>
+          let b := if kind =? 0 then BResetMessages else if kind =? 1 then BSetNextNum None None
+                   else if kind =? 2 then BQuery else if kind =? 3 then BFactory
+                   else if kind =? 4 then BCancelReject else BAcceptor in
+          let t' := bookkeeping st b in
+          SL [SI (t_oid t'); SI (t_eid t'); sx_of_list sx_of_str (t_reg t'); sx_oids t']
+      | None => err_sx 1
       end
   | SL [SI 7; SI k; m] =>
       match get_list get_field m with
